@@ -214,6 +214,29 @@ def scenario(rng, T, roots, gated, plan, tag='wt'):
             elif step[0] == 'burst':
                 for _ in range(step[2]):
                     proj.set_version(step[1], proj.version[step[1]] + 1)
+            # explicit control (fixed scenarios): bump an input without waiting, wait until a gated build is in progress,
+            # release one gated build, wait
+            elif step[0] == 'bump':
+                proj.set_version(step[1], proj.version[step[1]] + 1, bad=(len(step) > 2 and step[2] == 'bad'))
+            elif step[0] == 'await_pending':
+                t0 = time.time()
+                while time.time() - t0 < 10 and step[1] not in pending(proj, released) and proc.poll() is None:
+                    time.sleep(0.01)
+            elif step[0] == 'release':
+                if step[1] in pending(proj, released):
+                    released[step[1]] = released.get(step[1], 0) + 1
+                    os.write(proj.gate_fd[step[1]], b'0\n')
+            elif step[0] == 'sleep':
+                time.sleep(step[1])
+            elif step[0] == 'hold_others':
+                # for step[2] seconds every gated build except step[1] is released as soon as it waits at its gate
+                t0 = time.time()
+                while time.time() - t0 < step[2] and proc.poll() is None:
+                    for x in pending(proj, released):
+                        if x != step[1]:
+                            released[x] = released.get(x, 0) + 1
+                            os.write(proj.gate_fd[x], b'0\n')
+                    time.sleep(0.01)
             elif step[0] == 'during':
                 t, u = step[1], step[2]
                 # make u run: bump something that makes it rebuild (its own input if it has one)
@@ -253,11 +276,12 @@ def scenario(rng, T, roots, gated, plan, tag='wt'):
                 last_end[f[1]] = f[2]
         ends = sorted([(tsf(f), f[1], f[2]) for f in tr if f[0] == 'end' and tsf(f) is not None])
         for f in tr:
-            if f[0] == 'start' and tsf(f) is not None:
-                for p in T[f[1]]['producers'] + T[f[1]]['deps']:
+            if f[0] == 'start' and tsf(f) is not None and f[1] in T:
+                # at any depth: nothing at or above a failed target can be acknowledged until it is repaired (C07_blocked_until_success)
+                for p in sorted(closure(T, [f[1]]) - {f[1]}):
                     before = [(te, st) for (te, x, st) in ends if x == p and te < tsf(f)]
                     if before and before[-1][1] == '1' and tsf(f) - before[-1][0] > 0.5:
-                        bad('C07', '%s started %.3f s after the last run of its dependency %s had failed, which was not repaired yet'
+                        bad('C07', '%s started %.3f s after the last run of %s, which it depends on, had failed and was not repaired yet'
                             % (f[1], tsf(f) - before[-1][0], p))
         for t in sorted(clo):
             s = T[t]
